@@ -247,3 +247,11 @@ V("C35-alphabetindex-zero-on-error","C35",IR+"state.go","		s.log.Error(\"can't g
 V("C35-isalphabet-offbyone","C35",IR+"state.go","	return s.AlphabetIndex() >= 0","	return s.AlphabetIndex() >= -1",rule="C35.R2")
 V("C35-keyposition-default-zero","C35",IR+"indexer.go","	result = -1\n	rawBytes := key.Bytes()","	rawBytes := key.Bytes()",rule="C35.R2")
 V("C35-indexer-stale-on-committee-error","C35",IR+"indexer.go","	alphabet, err := s.commFetcher.Committee()\n	if err != nil {\n		return indexes{}, err\n	}","	alphabet, err := s.commFetcher.Committee()\n	if err != nil {\n		return s.ind, nil\n	}",rule="C35.R2")
+
+NP="pkg/innerring/processors/netmap/"
+V("C38-addnode-validator-error-ignored","C38",NP+"process_peers.go","			zap.String(\"key\", keyString),\n			zap.Error(err),\n		)\n\n		return\n	}","			zap.String(\"key\", keyString),\n			zap.Error(err),\n		)\n	}",rule="C38.R1")
+V("C38-addnode-invalid-script-accepted","C38",NP+"process_peers.go","	if err != nil || !ok {","	if err != nil && !ok {",rule="C38.R1")
+V("C38-composite-first-validator-only","C38",NP+"nodevalidation/validator.go","		if err := v.Verify(ni); err != nil {\n			return err\n		}\n	}","		if err := v.Verify(ni); err != nil {\n			return err\n		}\n		return nil\n	}",rule="C38.R2")
+V("C38-composite-skips-first","C38",NP+"nodevalidation/validator.go","	for _, v := range c.validators {","	for _, v := range c.validators[1:] {",rule="C38.R2")
+V("C38-tick-skips-epoch","C38",NP+"process_epoch.go","	nextEpoch := np.epochState.EpochCounter() + 1","	nextEpoch := np.epochState.EpochCounter() + 2",rule="C38.R3")
+V("C38-tick-without-alphabet","C38",NP+"process_epoch.go","func (np *Processor) processNewEpochTick() {\n	if !np.alphabetState.IsAlphabet() {\n		np.log.Info(\"non alphabet mode, ignore new epoch tick\")\n		return\n	}","func (np *Processor) processNewEpochTick() {\n	if !np.alphabetState.IsAlphabet() {\n		np.log.Info(\"non alphabet mode, ignore new epoch tick\")\n	}",rule="C38.R3")
